@@ -142,6 +142,8 @@ PROGRAMS = {
     # ... removed again by the plan before the second data point / left for the engine, with a run opened after the subscription
     "tmpsub_un": {"msgs": [M("open_run"), M("checkpoint"), M("subscribe"), M("subscribe")] + _point + [M("null"), M("unsubscribe"), M("null")] + _point
                           + [M("close_run"), M("unsubscribe"), M("null"), M("open_run"), M("checkpoint")] + _point + [M("close_run")]},
+    # the plan ends with its run still open: the engine's own RunStop (emitted by its clean-up) must still reach the plan's consumer
+    "tmpsub_left": {"msgs": [M("subscribe"), M("open_run"), M("checkpoint")] + _point + [M("null")]},
     "tmpsub_pre": {"msgs": [M("subscribe"), M("null"), M("open_run"), M("checkpoint")] + _point + [M("sleep"), M("null"), M("close_run"), M("null")]},
     "openonly": {"msgs": [M("open_run"), M("checkpoint"), M("sleep"), M("null")]},
     # pauses requested by the plan itself (Msg('pause')): resumable, deferred, and in a non-resumable section with the run left open
@@ -548,7 +550,7 @@ def corpus_spec(tier):
     sweeps = []
     progs = ["simple", "two", "fin", "move", "mon", "multi", "defer", "norew", "paus", "err", "openonly", "mon_then", "nores_open", "nores_rew", "nores_rew_ckpt", "nores_then_ckpt", "unstage_only", "cfg_late", "multi_close", "amove", "aopen", "aselfpause_nores",
              "selfpause", "selfpause_nores", "selfpause_nores_fin", "selfdefer_nores", "norew_save",
-             "fly", "fly_prep", "fly_left", "fly_fin", "fly_twice", "fly_multi", "declare", "declare_mix", "badclean", "npaus", "tmpsub", "tmpsub_un", "tmpsub_pre"]
+             "fly", "fly_prep", "fly_left", "fly_fin", "fly_twice", "fly_multi", "declare", "declare_mix", "badclean", "npaus", "tmpsub", "tmpsub_un", "tmpsub_pre", "tmpsub_left"]
     kinds = REQ_KINDS
     if quick:
         sweeps.append(dict(plans=progs, kinds=["pause", "suspend", "abort"], decisions=["resume"], ri=True))
@@ -1157,7 +1159,7 @@ def two_call_scenarios(tier):
 
 def tmpsub_then_scenarios(tier):
     out = []
-    for plan in ("tmpsub", "tmpsub_un", "tmpsub_pre"):
+    for plan in ("tmpsub", "tmpsub_un", "tmpsub_pre", "tmpsub_left"):
         base = base_scenario(plan)
         n = run_one(base)["points"]
         firsts = [("plain", [], [])]
